@@ -16,6 +16,8 @@ from .report import Ctx, finish, seed_from_env
 def run_check(prop: str, tier: str, prog: Program | None = None, write: bool = True) -> tuple[int, Ctx]:
     t0 = time.time()
     prog = prog or Program()
+    from . import execmodel
+    execmodel.set_prog(prog)
     mod = importlib.import_module(f"fsa.rules.{prop.lower()}")
     ctx = Ctx(prop, tier, prog, seed_from_env())
     for rid, fn, tiers in mod.RULES:
